@@ -393,7 +393,7 @@ func c10Run(c *core.Ctx) {
 }
 
 func c10Replay(c *core.Ctx, payload json.RawMessage) {
-	if c01AttrReplay(c, payload) || c01CommitCancelReplay(c, payload) {
+	if c01AttrReplay(c, payload) || c01CommitCancelReplay(c, payload) || c10HistoryReplay(c, payload) {
 		return
 	}
 	var p c10Payload
